@@ -832,14 +832,14 @@ class DictType(Type):
         self_type = function.the_self
         if self_type.is_empty:
             return GeneratorType(True)
-        return GeneratorType(False, widest_type([key for key, value in self_type.element_types]))
+        return GeneratorType(False, common_type([key for key, value in self_type.element_types]))
 
     @staticmethod
     def values(tifa, function, callee, arguments, named_arguments, location):
         self_type = function.the_self
         if self_type.is_empty:
             return GeneratorType(True)
-        return GeneratorType(False, widest_type([value for key, value in self_type.element_types]))
+        return GeneratorType(False, common_type([value for key, value in self_type.element_types]))
 
     @staticmethod
     def items(tifa, function, callee, arguments, named_arguments, location):
@@ -850,7 +850,7 @@ class DictType(Type):
         for key, value in self_type.element_types:
             keys.append(key)
             values.append(value)
-        return GeneratorType(False, TupleType([widest_type(keys), widest_type(values)]))
+        return GeneratorType(False, TupleType([common_type(keys), common_type(values)]))
 
     @staticmethod
     def get(tifa, function, callee, arguments, named_arguments, location):
@@ -1481,6 +1481,15 @@ def widest_type(type_values):
         if first_type is None:
             return
     return first_type
+
+
+def common_type(type_values):
+    """ The widest of the types or, when none of them covers the others
+    (a dictionary with values of several kinds), their union. """
+    potential = widest_type(type_values)
+    if potential is not None:
+        return potential
+    return TypeUnion(type_values)
 
 
 if __name__ == "__main__":
